@@ -48,6 +48,13 @@ theorem sigOf_ne_dir (r : Except Err Unit) (dr : Directive) (bm : Bookmark) : si
   | ok u => intro h; cases h
   | error e => intro h; cases h
 
+theorem sigOf_ok {r : Except Err Unit} (h : sigOf r = none ∨ true = false) : ∃ a, r = .ok a := by
+  rcases h with h | h
+  · cases r with
+    | ok u => exact ⟨u, rfl⟩
+    | error e => cases h
+  · cases h
+
 theorem sigRel_of_res (δ : Nat) (r : Except Err Unit) : SigRel δ 0 (sigOf r) (sigOf r) := by
   match r with
   | .ok () => exact trivial
@@ -111,7 +118,7 @@ theorem lexEmitNonTag_sim (hops : OpsSim env.ops inpS inpW δ K Loc) {ab ab' : A
     exact ⟨rfl, spanic_of_epanic hpan⟩
   · right
     rw [hres]
-    refine ⟨sigRel_of_res δ _, fun _ => ⟨⟨hc, ?_, hsim, hpc⟩, hK'⟩, fun dr bm hh => absurd hh (sigOf_ne_dir _ dr bm)⟩
+    refine ⟨sigRel_of_res δ _, fun hh => ⟨⟨hc, ?_, hsim, hpc⟩, hK' (sigOf_ok hh)⟩, fun dr bm hh => absurd hh (sigOf_ne_dir _ dr bm)⟩
     exact hl.emitted hn es hle hp rfl rfl hfd htag hattr hnt
 
 /-- both runs leave the machine alone -/
@@ -158,7 +165,7 @@ theorem lexEmitText_sim (hops : OpsSim env.ops inpS inpW δ K Loc) {d : Nat} {ab
       · exact Or.inl ⟨rfl, spanic_of_epanic hpan⟩
       · right
         rw [hres]
-        refine ⟨sigRel_of_res δ _, fun _ => ⟨⟨hc, ?_, hsim, hpc⟩, hK'⟩, fun dr bm hh => absurd hh (sigOf_ne_dir _ dr bm)⟩
+        refine ⟨sigRel_of_res δ _, fun hh => ⟨⟨hc, ?_, hsim, hpc⟩, hK' (sigOf_ok hh)⟩, fun dr bm hh => absurd hh (sigOf_ne_dir _ dr bm)⟩
         exact hl.emitted hn cs.pos (by omega) (fun _ => by omega) rfl (by simp only; omega) hl.fd
           (Or.inl ⟨rfl, rfl⟩) ⟨rfl, rfl⟩ (Or.inl ⟨rfl, rfl⟩)
     · rw [if_neg hgt]
@@ -167,7 +174,7 @@ theorem lexEmitText_sim (hops : OpsSim env.ops inpS inpW δ K Loc) {d : Nat} {ab
       · exact hpan.elim
       · right
         rw [hres]
-        refine ⟨trivial, fun _ => ⟨⟨hc, ?_, hsim, hpc⟩, hK'⟩, fun _ _ hh => by cases hh⟩
+        refine ⟨trivial, fun _ => ⟨⟨hc, ?_, hsim, hpc⟩, hK' ⟨(), rfl⟩⟩, fun _ _ hh => by cases hh⟩
         exact hl.emitted hn ls.lexemeStart (by omega) (fun _ => by omega) rfl (by simp only; omega) hl.fd
           (Or.inl ⟨rfl, rfl⟩) ⟨rfl, rfl⟩ (Or.inl ⟨rfl, rfl⟩)
 
@@ -398,12 +405,12 @@ theorem lexEmitTagLexeme_sim (hops : OpsSim env.ops inpS inpW δ K Loc) {ab ab' 
     | .error (.panic _), _ => exact ⟨rfl, trivial⟩
   · right
     rw [hres]
-    generalize (env.ops.handleTag inpS ⟨xs.prevConsumed, ⟨ls.lexemeStart, es⟩, t⟩ xs.sink).2 = r
-    match r with
-    | .error e => exact ⟨rfl, (fun hh => by rcases hh with hh | hh <;> cases hh), fun _ _ hh => by cases hh⟩
-    | .ok .lex => exact ⟨trivial, fun _ => ⟨⟨hc, hl', rfl, hpc⟩, hK'⟩, fun _ _ hh => by cases hh⟩
-    | .ok .scan =>
-      refine ⟨⟨rfl, ?_⟩, (fun hh => by rcases hh with hh | hh <;> cases hh), fun _ _ _ => ⟨ab', ⟨hc, hl', rfl, hpc⟩, hK', trivial⟩⟩
+    generalize (env.ops.handleTag inpS ⟨xs.prevConsumed, ⟨ls.lexemeStart, es⟩, t⟩ xs.sink).2 = r at hK' ⊢
+    match r, hK' with
+    | .error e, _ => exact ⟨rfl, (fun hh => by rcases hh with hh | hh <;> cases hh), fun _ _ hh => by cases hh⟩
+    | .ok .lex, hK' => exact ⟨trivial, fun _ => ⟨⟨hc, hl', rfl, hpc⟩, hK' ⟨_, rfl⟩⟩, fun _ _ hh => by cases hh⟩
+    | .ok .scan, hK' =>
+      refine ⟨⟨rfl, ?_⟩, (fun hh => by rcases hh with hh | hh <;> cases hh), fun _ _ _ => ⟨ab', ⟨hc, hl', rfl, hpc⟩, hK' ⟨_, rfl⟩, trivial⟩⟩
       exact ⟨hc.cdataAllowed, hc.lastTextType, hc.lastStartTagNameHash, rfl, rfl⟩
 
 /-- `emit_tag` -/
